@@ -450,7 +450,7 @@ func c11Run(t *testing.T, c c11Case) (res c11Result) {
 	return res
 }
 
-const c11Rule = "real MultiClientConn (production dial options) + real multiMuxManager/muxProvider + real yamux over net.Pipe + a real gRPC health server per session that reports its session tag, in a virtual-time bubble; rapid histories of add / addSlow (the far end reads nothing for 12 s: the session's first health-check ping fails and its state is Error while it stays open and registered) / remove (closed locally or by the remote end) / flap (remove+add) / removeAll / rpc (unary, 5 s deadline) / advance; state oracle after every step: keys the dialer accepts == registered sessions == CanMakeCalls, the dialer opens streams on every registered session and on no removed one; behaviour oracle: a successful call was served by a currently registered session; with no session calls report Unavailable/DeadlineExceeded; >=20 virtual seconds after the last change a call succeeds whenever a session exists; non-trivial = the session that served the previous call was removed and a later call was served by another one, or an empty->non-empty transition; distinct = distinct histories"
+const c11Rule = "real MultiClientConn (production dial options) + real multiMuxManager/muxProvider + real yamux over net.Pipe + a real gRPC health server per session that reports its session tag, in a virtual-time bubble; rapid histories of add / addSlow (the far end reads nothing for 12 s: the session's first health-check ping fails and its state is Error while it stays open and registered) / remove (closed locally or by the remote end) / flap (remove+add) / removeAll / rpc (unary, 5 s deadline) / advance (10 ms - 60 s, occasionally 32 minutes without any call: longer than gRPC's idle timeout); state oracle after every step: keys the dialer accepts == registered sessions == CanMakeCalls, the dialer opens streams on every registered session and on no removed one; behaviour oracle: a successful call was served by a currently registered session; with no session calls report Unavailable/DeadlineExceeded; >=20 virtual seconds after the last change a call succeeds whenever a session exists; non-trivial = the session that served the previous call was removed and a later call was served by another one, or an empty->non-empty transition; distinct = distinct histories"
 
 func c11Gen(t *rapid.T) c11Case {
 	var c c11Case
@@ -471,7 +471,7 @@ func c11Gen(t *rapid.T) c11Case {
 		case x < 80:
 			c.Ops = append(c.Ops, c11Op{K: "rpc"})
 		default:
-			c.Ops = append(c.Ops, c11Op{K: "advance", Ms: rapid.SampledFrom([]int{10, 1000, 5000, 21000, 21000, 60000}).Draw(t, "ms")})
+			c.Ops = append(c.Ops, c11Op{K: "advance", Ms: rapid.SampledFrom([]int{10, 1000, 5000, 21000, 21000, 60000, 60000, 1900000}).Draw(t, "ms")})
 		}
 	}
 	return c
